@@ -14,7 +14,8 @@ Record file_cfg : Type := mkFile {
   f_eq_acc : option (list (list N));                   (* [export.equity] accounts *)
   f_commodity : option (list N);
   f_lookup : N; f_db : option (list N);
-  f_group_by : N }.
+  f_group_by : N;
+  f_eq_declared : bool }.                              (* export.equity.equity-account is in the chart of accounts *)
 
 Record cli_opts : Type := mkCli {
   c_strict : option bool; c_audit : option bool;
@@ -51,13 +52,17 @@ Definition E_no_commodity : N := 1%N.
 Definition E_before_not_allowed : N := 2%N.
 Definition E_before_missing : N := 3%N.
 Definition E_no_db : N := 4%N.
+Definition E_equity_account : N := 5%N.
 
 (* Settings::try_from *)
 Definition effective (f : file_cfg) (c : cli_opts) : res eff :=
   let lookup := or_else (c_lookup c) (f_lookup f) in
   let db := or_opt (c_db c) (f_db f) in
   let commodity := or_opt (c_commodity c) (f_commodity f) in
-  if (match commodity with None => true | Some _ => false end) && negb (N.eqb lookup 0) then Err E_no_commodity
+  (* strict mode (as overridden) + equity export (as overridden) need a declared equity account *)
+  if or_else (c_strict c) (f_strict f) && existsb (N.eqb 0) (or_else (c_exports c) (f_exports f))
+     && negb (f_eq_declared f) then Err E_equity_account
+  else if (match commodity with None => true | Some _ => false end) && negb (N.eqb lookup 0) then Err E_no_commodity
   else if negb (N.eqb lookup 3) && (match c_before c with Some _ => true | None => false end) then Err E_before_not_allowed
   else if N.eqb lookup 3 && (match c_before c with Some _ => false | None => true end) then Err E_before_missing
   else if negb (N.eqb lookup 0) && (match db with None => true | Some _ => false end) then Err E_no_db
@@ -80,7 +85,7 @@ Definition merge (f : file_cfg) (c : cli_opts) : file_cfg :=
          (match acc with Some _ => None | None => f_eq_acc f end)
          (or_opt (c_commodity c) (f_commodity f))
          (or_else (c_lookup c) (f_lookup f)) (or_opt (c_db c) (f_db f))
-         (or_else (c_group_by c) (f_group_by f)).
+         (or_else (c_group_by c) (f_group_by f)) (f_eq_declared f).
 (* --price.before has no configuration key: it stays an option *)
 Definition only_before (c : cli_opts) : cli_opts :=
   mkCli None None None None None None None None (c_before c) None.
